@@ -65,7 +65,7 @@ fn gen_cases(rng: &mut Rng, tier: Tier) -> Vec<Value> {
                 3 => Some("redistribute"),
                 _ => None,
             };
-            { let mg = [1usize, 2, 3, 10, 25][i % 5]; json!({"k": "quota", "sp": sp, "max_gens": if focus.is_some() { mg.max(3) } else { mg },
+            { let mg = [1usize, 2, 3, 10, 25][i % 5]; json!({"k": "quota", "sp": sp, "max_gens": if focus == Some("infeasible_search") { 12 } else if focus.is_some() { mg.max(3) } else { mg },
                      "limit": if focus == Some("infeasible_search") { 3 * limit } else { limit }, "focus": focus}) }
         })
         .collect()
@@ -89,15 +89,25 @@ fn run_once(sp: &SProblem, max_gens: usize, fire_at: usize, focus: Option<String
             .set_telemetry_mode(TelemetryMode::OnlyMetrics { track_population: 1000 });
         if let Some(name) = focus.as_ref() {
             use vrp_core::solver::{create_scalar_operator_probability, get_static_heuristic_from_heuristic_group, verif_default_operators};
+            use vrp_core::solver::search::{InfeasibleSearch, Recreate, RecreateWithCheapest, RedistributeSearch};
+            use vrp_core::solver::TargetSearchOperator;
             let operators = verif_default_operators(problem.clone(), env.clone());
-            if let Some((op, _, _)) = operators.into_iter().find(|o| &o.1 == name) {
-                let heuristic = get_static_heuristic_from_heuristic_group(
-                    problem.clone(),
-                    env.clone(),
-                    vec![(op, create_scalar_operator_probability(1., env.random.clone()))],
-                );
-                builder = builder.set_heuristic(Box::new(heuristic));
-            }
+            // operators the default heuristic ships inside its diversification composite, built with the public constructors and
+            // the parameters it uses; the inner search of the infeasible search is the default ruin-and-recreate operator (hook H8)
+            let cheapest: Arc<dyn Recreate> = Arc::new(RecreateWithCheapest::new(env.random.clone()));
+            let inner: TargetSearchOperator = operators.iter().find(|(_, n, _)| n.contains('+')).map(|(o, _, _)| o.clone()).expect("a default operator");
+            let op: Option<TargetSearchOperator> = match name.as_str() {
+                "infeasible_search" => Some(Arc::new(InfeasibleSearch::new(inner, cheapest, 4, (0.05, 0.2), (0.33, 0.75)))),
+                "redistribute" => Some(Arc::new(RedistributeSearch::new(cheapest))),
+                other => operators.into_iter().find(|o| o.1 == other).map(|o| o.0),
+            };
+            let op = op.expect("unknown operator name");
+            let heuristic = get_static_heuristic_from_heuristic_group(
+                problem.clone(),
+                env.clone(),
+                vec![(op, create_scalar_operator_probability(1., env.random.clone()))],
+            );
+            builder = builder.set_heuristic(Box::new(heuristic));
         }
         let config = builder
             .prebuild()
